@@ -239,7 +239,7 @@ func finish(verifDir, prop, tier string, seed int, t0 time.Time, rr *runResult, 
 					nnontriv++
 				}
 			}
-			if perRule[o.Rule] < 2 && len(samples) < 40 {
+			if o.Nontrivial && perRule[o.Rule] < 2 && len(samples) < 60 {
 				perRule[o.Rule]++
 				samples = append(samples, map[string]any{"rule": o.Rule, "key": o.Key, "at": o.Pos, "status": o.Status, "why": o.Reason})
 			}
